@@ -48,6 +48,9 @@ V_HARNESS(h_cc_inv)
   in_bytes(ch->pg[1].text, ROWS * COLUMNS * sizeof(vbi_char));
   in_bytes(&attr, sizeof attr); ch->attr = attr;
   col = in_u8(); col1 = in_u8(); nul = in_u16();
+#ifdef ICOL                  /* column literal: needed for Delete To End Of Row (its loop starts at the column) */
+  col = ICOL;
+#endif
   V_ASSUME(col1 >= 1 && col1 <= col && col <= COLUMNS - 1);
   ch->col = col; ch->col1 = col1; ch->nul_ct = nul;
   VBI.cc.last[0] = in_u8(); VBI.cc.last[1] = in_u8();
